@@ -48,8 +48,34 @@ struct Item {
     other_thread: bool,
 }
 
-fn run_custom(sep: Vec<u8>, items: Vec<Item>) -> String {
+/// `pre = Some(bytes)`: the set is RESTARTED onto a file of the current period that holds exactly `bytes` (a torn tail when
+/// they do not end with the separator), with `reuse_files(true)` — the public builder must hand the CONFIGURED separator
+/// to the worker's recovery write.
+fn run_custom(sep: Vec<u8>, items: Vec<Item>, pre: Option<Vec<u8>>) -> String {
+    for _attempt in 0..3 {
+        if let Some(out) = run_custom_once(sep.clone(), items.clone(), pre.clone()) {
+            return out;
+        }
+    }
+    "inconclusive".into()
+}
+
+fn run_custom_once(sep: Vec<u8>, items: Vec<Item>, pre: Option<Vec<u8>>) -> Option<String> {
     let dir = temp_dir();
+    if let Some(pre) = &pre {
+        // a first life of the set creates the file of the current period; its content is then replaced
+        let first = emit_file::set_with_writer(dir.join("app.log"), |buf, _evt| { buf.extend_from_slice(b"first"); Ok(()) }, intern(&sep))
+            .reuse_files(true)
+            .spawn();
+        emit::Emitter::emit(&first, emit::Event::new(emit::Path::new_raw("m"), emit::Template::literal("x"), emit::Empty, emit::Empty));
+        let ok = emit::Emitter::blocking_flush(&first, Duration::from_secs(20));
+        drop(first);
+        let names: Vec<_> = std::fs::read_dir(&dir).map(|rd| rd.filter_map(|e| e.ok()).map(|e| e.path()).collect()).unwrap_or_default();
+        if !ok || names.len() != 1 || std::fs::write(&names[0], pre).is_err() {
+            let _ = std::fs::remove_dir_all(&dir);
+            return Some("first-life-failed\tFAIL:flush".into());
+        }
+    }
     let queue: Arc<Mutex<VecDeque<Item>>> = Arc::new(Mutex::new(items.iter().cloned().collect()));
     let q = queue.clone();
     let files = emit_file::set_with_writer(
@@ -69,6 +95,7 @@ fn run_custom(sep: Vec<u8>, items: Vec<Item>) -> String {
         },
         intern(&sep),
     )
+    .reuse_files(pre.is_some())
     .spawn();
     let emit_one = |files: &emit_file::FileSet| {
         let evt = emit::Event::new(emit::Path::new_raw("m"), emit::Template::literal("x"), emit::Empty, emit::Empty);
@@ -88,9 +115,20 @@ fn run_custom(sep: Vec<u8>, items: Vec<Item>) -> String {
     let failed = files.metric_source().event_format_failed();
     drop(files);
     let content = read_all(&dir);
+    let nfiles = std::fs::read_dir(&dir).map(|rd| rd.count()).unwrap_or(0);
     let _ = std::fs::remove_dir_all(&dir);
+    if pre.is_some() && nfiles != 1 {
+        // the period rolled over between the two lives of the set (top of the hour): run the case again
+        return None;
+    }
     let mut out = format!("{} failed={}", hex_atom(&content), failed);
     let oks: Vec<&Vec<u8>> = items.iter().filter(|i| !i.fail).map(|i| &i.bytes).collect();
+    if pre.is_some() {
+        if !flushed {
+            out.push_str("\tFAIL:flush");
+        }
+        return Some(out);
+    }
     if !flushed {
         out.push_str("\tFAIL:flush");
     } else if failed != items.iter().filter(|i| i.fail).count() {
@@ -105,7 +143,7 @@ fn run_custom(sep: Vec<u8>, items: Vec<Item>) -> String {
             out.push_str("\tFAIL:emit-record");
         }
     }
-    out
+    Some(out)
 }
 
 fn run_json(evs: Vec<(String, String)>) -> String {
@@ -149,9 +187,10 @@ fn run(line: &str) -> String {
     let parsed = (|| {
         let (t, a) = s.as_tagged()?;
         match (t, a.len()) {
-            ("emit", 2) => {
+            ("emit", 2) | ("emitr", 3) => {
                 let sep = a[0].as_bytes()?;
-                let (t, evs) = a[1].as_tagged()?;
+                let pre = if t == "emitr" { Some(a[1].as_bytes()?) } else { None };
+                let (t, evs) = a[a.len() - 1].as_tagged()?;
                 if t != "ev" {
                     return None;
                 }
@@ -165,7 +204,7 @@ fn run(line: &str) -> String {
                         None => Item { bytes: e.as_bytes()?, fail: false, other_thread: false },
                     });
                 }
-                Some(run_custom(sep, items))
+                Some(run_custom(sep, items, pre))
             }
             ("json", 1) => {
                 let (t, evs) = a[0].as_tagged()?;
@@ -226,7 +265,19 @@ fn gen(rng: &mut Rng, _tier: Tier, n: usize) -> Vec<String> {
                     evs.push(Sexp::bytes(&e));
                 }
             }
-            out.push(Sexp::tagged("emit", vec![Sexp::bytes(&sep), Sexp::tagged("ev", evs)]).to_string());
+            if rng.chance(1, 4) {
+                // restarted onto an existing file: empty, complete records, or a torn tail
+                let pre_len = *rng.pick(&[0u64, 3, 24]);
+                let mut pre = super::c10::gen_payload(rng, &sep, pre_len);
+                match rng.below(4) {
+                    0 => pre.extend_from_slice(&sep),
+                    1 if sep.len() > 1 => pre.extend_from_slice(&sep[..1]),
+                    _ => {}
+                }
+                out.push(Sexp::tagged("emitr", vec![Sexp::bytes(&sep), Sexp::bytes(&pre), Sexp::tagged("ev", evs)]).to_string());
+            } else {
+                out.push(Sexp::tagged("emit", vec![Sexp::bytes(&sep), Sexp::tagged("ev", evs)]).to_string());
+            }
         } else {
             let k = rng.range(0, 4);
             let texts = ["plain", "two\nlines", "\n", "tab\tq\"uote\\", "\r\n", "caf\u{e9}\u{2028}x", "", "{\"a\":1}\n"];
